@@ -67,7 +67,7 @@ func ethSpelling(rng *Rng, base string) string {
 }
 
 var symPool = []string{"eth", "usdc", "rowan", "dai", "a", "x.y", "ceth"}
-var lockSyms = []string{"rowan", "ceth", "cusdc", "stake", "ab", "ceth", "rowan", "cdai", "rowan", "rowan"}
+var lockSyms = []string{"rowan", "ceth", "cusdc", "stk", "ab", "ceth", "rowan", "cdai", "rowan", "rowan"}
 var burnSyms = []string{"ceth", "cusdc", "cdai", "rowan", "cx", "ceth", "cusdc", "crowan", "ceth", "cdai"}
 
 const gasCost = "23580000000000000" // 60000000000 * 393000
@@ -202,6 +202,23 @@ func directedOracle() []hist {
 		h.add(claimLine(2, 1, 13, snd0, 4, "9", "eth", tok0, 2))
 		h.add(claimLine(1, 1, 13, snd0, 4, "9", "eth", tok0, 2))
 		front = append(front, h) // run first: see the end of the function
+	}
+	// jailed in this block: 40/30/30, validator 2 claims, is jailed (out of the power index, status still Bonded), validator 0
+	// claims the same: 40 of the 70 that count — pending; after the staking EndBlocker and after an unjail likewise judged
+	for _, after := range []string{"", "stakeend", "unjail 2"} {
+		var h hist
+		stdSetup(&h, []int64{40, 30, 30}, nil, "0,1,2")
+		h.add(claimLine(2, 1, 16, snd0, 4, "10", "eth", tok0, 2))
+		h.add("jail 2")
+		if after != "" {
+			h.add(after)
+		}
+		h.add(claimLine(0, 1, 16, snd0, 4, "10", "eth", tok0, 2))
+		h.add(claimLine(2, 1, 17, snd0, 4, "10", "eth", tok0, 2)) // the jailed validator claims: admitted only while its status is Bonded
+		h.add("stakeend")
+		h.add(claimLine(1, 1, 16, snd0, 4, "10", "eth", tok0, 2))
+		h.add(claimLine(2, 1, 18, snd0, 4, "10", "eth", tok0, 2))
+		front = append(front, h)
 	}
 	// time: a prophecy finalised (one SUCCESS, one FAILED) stays as it is however many blocks pass; late and replayed
 	// claims after 1, 10, 100800, 100801 and 10^6 more blocks are refused and credit nothing
@@ -389,6 +406,24 @@ func directedPeg() []hist {
 		h.add("tx lock 3 1 %s 10 rowan %s", bare, gasCost)
 		h.add("tx bl 3 -")
 		h.add("tx lock 3 1 %s 10 rowan %s", f1, gasCost)
+		hs = append(hs, h)
+	}
+	// paused bridge; the un-pause travels in a transaction whose second message fails: discarded as a whole, the bridge
+	// stays paused for the exports of the same block and of the next
+	for _, second := range []string{"wl 3 delete 0", "pause 4 1", "wl 3 add 0"} {
+		var h hist
+		stdSetup(&h, []int64{50, 50}, nil, "0,1")
+		h.add(claimLine(0, 1, 1, snd0, 3, "100000", "usdc", tok1, 2))
+		h.add(claimLine(1, 1, 1, snd0, 3, "100000", "usdc", tok1, 2))
+		h.add("tx pause 3 1")
+		h.add("txm pause 3 0 | %s", second)
+		h.add("tx lock 3 1 %s 10 rowan %s", low, gasCost)
+		h.add("tx burn 3 1 %s 10 cusdc %s", low, gasCost)
+		h.add("blk 1")
+		h.add("tx lock 3 1 %s 10 rowan %s", low, gasCost)
+		h.add("tx burn 3 1 %s 10 cusdc %s", low, gasCost)
+		h.add("txm pause 3 0 | pause 3 1 | %s", second)
+		h.add("tx lock 3 1 %s 10 rowan %s", low, gasCost)
 		hs = append(hs, h)
 	}
 	// fee cases: receiver unset / set; burning ceth itself; locking ceth with the receiver unset; pause; rescue
@@ -613,6 +648,31 @@ func randomHistory(rng *Rng, profile string) hist {
 		if rng.Chance(1, 25) {
 			// blocks pass: the next one, a few, or far beyond any retention / expiry period
 			h.add("blk %d", []int64{1, 1, 10, 100800, 100801, 1000000}[rng.Intn(6)])
+			continue
+		}
+		if rng.Chance(1, 20) {
+			// the staking lifecycle between claims: a validator is jailed (out of the power index at once, status Bonded
+			// until the staking EndBlocker), claims follow in the same block, sometimes the EndBlocker, sometimes an unjail
+			v := rng.Intn(nv)
+			h.add("jail %d", v)
+			e := evs[rng.Intn(nev)]
+			for i := 1 + rng.Intn(3); i > 0; i-- {
+				c := rng.Intn(nv)
+				if rng.Bool() {
+					c = v
+				}
+				h.add("tx claim %d %d %d %s %s", c, e.chain, e.nonce, e.sender, e.contents[0])
+			}
+			switch rng.Intn(3) {
+			case 0:
+				h.add("stakeend")
+			case 1:
+				h.add("unjail %d", v)
+			}
+			continue
+		}
+		if rng.Chance(1, 40) {
+			h.add("stakeend")
 			continue
 		}
 		if rng.Chance(1, 18) {
@@ -871,6 +931,30 @@ func symToken(sym string) string {
 }
 
 func randomPegOp(rng *Rng, h *hist, held []holding) {
+	if rng.Chance(1, 14) {
+		// a pause change inside a transaction of two messages (written only if both succeed), then exports at the same
+		// height, the next block, exports again
+		first := fmt.Sprintf("pause 3 %d", rng.Intn(2))
+		second := []string{"wl 3 delete 0", "wl 4 add 0", "rescue 3 1 5", "pause 4 1", "wl 3 add 0", fmt.Sprintf("pause 3 %d", rng.Intn(2))}[rng.Intn(6)]
+		if rng.Chance(1, 5) {
+			first, second = second, first
+		}
+		if rng.Bool() {
+			h.add("tx pause 3 1")
+		}
+		h.add("txm %s | %s", first, second)
+		recv := ethSpelling(rng, ethBases[rng.Intn(len(ethBases))])
+		h.add("tx lock 3 1 %s %d rowan %s", recv, 1+rng.Intn(1000), gasCost)
+		if len(held) > 0 {
+			x := held[rng.Intn(len(held))]
+			h.add("tx burn %d 1 %s %d %s %s", x.acct, recv, 1+rng.Intn(1000), x.denom, gasCost)
+		}
+		if rng.Bool() {
+			h.add("blk 1")
+			h.add("tx lock 3 1 %s %d rowan %s", recv, 1+rng.Intn(1000), gasCost)
+		}
+		return
+	}
 	if len(held) > 0 && rng.Chance(2, 5) {
 		// a holder locks or burns a denomination the bridge minted for it
 		x := held[rng.Intn(len(held))]
